@@ -57,8 +57,9 @@ def check_pairs(case, stats):
   n_pos_avail = sum(m * (m - 1) for m in cnt.values())
   tot = sum(cnt.values())
   n_neg_avail = sum(m * (tot - m) for m in cnt.values())
+  cons = call('C07/Constraints', C.Constraints, y)      # ONE helper object for the whole history of calls below
   with recorded_warnings() as w:
-    res = call('C07/pairs', lambda: C.Constraints(y).positive_negative_pairs(
+    res = call('C07/pairs', lambda: cons.positive_negative_pairs(
         n, same_length=case['same_length'], random_state=case['seed']))
   warned = any('Only generated' in str(x.message) for x in w)
   if len(res) != 4:
@@ -92,12 +93,20 @@ def check_pairs(case, stats):
     raise Violation('C07/pairs/no-warning', 'fewer than requested (%d,%d of %d) without a warning' % (len(a), len(c), n))
   if warned and not short:
     raise Violation('C07/pairs/spurious-warning', 'warning although %d of each kind were returned' % n)
-  # determinism
+  # determinism: a fresh helper, and the SAME helper again after other methods have been used on it
   res2 = call('C07/pairs', lambda: C.Constraints(y).positive_negative_pairs(
       n, same_length=case['same_length'], random_state=case['seed']))
-  for u, v in zip(res, res2):
+  call('C07/chunks-on-same-object', lambda: cons.chunks(n_chunks=1, chunk_size=1, random_state=case['seed']),
+       expect=(ValueError,))
+  res3 = call('C07/pairs', lambda: cons.positive_negative_pairs(
+      n, same_length=case['same_length'], random_state=case['seed']))
+  for u, v, x in zip(res, res2, res3):
     if not np.array_equal(u, v):
       raise Violation('C07/pairs/not-deterministic', 'same integer seed, different constraints')
+    if not np.array_equal(u, x):
+      raise Violation('C07/pairs/depends-on-history', 'same helper object, same seed, second call differs')
+  if not np.array_equal(np.asarray(cons.partial_labels), y):
+    raise Violation('C07/labels-modified', 'the helper changed its labels')
   # wrap_pairs: X[[a,b]] then X[[c,d]] with labels +1 / -1 in that order
   X = np.arange(len(y), dtype=float)[:, None] * np.array([[1.0, -2.0]])
   P, yy = call('C07/wrap_pairs', C.wrap_pairs, X, res)
@@ -128,8 +137,8 @@ def check_chunks(case, stats):
   nch, cs = case['n_chunks'], case['chunk_size']
   known, cnt = _classes(y)
   feasible = sum(m // cs for m in cnt.values())
-  res = call('C07/chunks', lambda: C.Constraints(y).chunks(n_chunks=nch, chunk_size=cs,
-                                                           random_state=case['seed']),
+  cons = call('C07/Constraints', C.Constraints, y)
+  res = call('C07/chunks', lambda: cons.chunks(n_chunks=nch, chunk_size=cs, random_state=case['seed']),
              expect=(ValueError,))
   if feasible < nch:
     if not isinstance(res, ValueError):
@@ -161,6 +170,12 @@ def check_chunks(case, stats):
                                                             random_state=case['seed']))
   if not np.array_equal(ch, res2):
     raise Violation('C07/chunks/not-deterministic', 'same integer seed, different chunks')
+  # the same helper object again (a second and third call must not see state left by the first)
+  for rep in range(2):
+    res3 = call('C07/chunks-second-call', lambda: cons.chunks(n_chunks=nch, chunk_size=cs, random_state=case['seed']),
+                expect=(ValueError,))
+    if isinstance(res3, ValueError) or not np.array_equal(ch, res3):
+      raise Violation('C07/chunks/depends-on-history', 'call %d on the same helper object: %r, first call gave %s' % (rep + 2, res3, ch))
   unknown = bool((y < 0).any())
   singleton = bool(cnt) and min(cnt.values()) == 1
   stats.case(case, len(known) >= 2 and (unknown or singleton or feasible == nch),
@@ -193,7 +208,8 @@ def check_knn(case, stats):
   if len(known) < 2 or min(cnt.values()) < 2:
     raise Discard('k-NN domain: every known class needs >= 2 members, >= 2 known classes')
   Xin = X.copy()
-  T = call('C07/knn', lambda: C.Constraints(y).generate_knntriplets(Xin, kg, ki))
+  cons = call('C07/Constraints', C.Constraints, y)
+  T = call('C07/knn', lambda: cons.generate_knntriplets(Xin, kg, ki))
   T = np.asarray(T)
   if T.ndim != 2 or T.shape[1] != 3:
     raise Violation('C07/knn/shape', 'shape %s' % (T.shape,))
@@ -242,6 +258,10 @@ def check_knn(case, stats):
   T2 = call('C07/knn', lambda: C.Constraints(y).generate_knntriplets(X.copy(), kg, ki))
   if not np.array_equal(T, T2):
     raise Violation('C07/knn/not-deterministic', 'two calls differ')
+  call('C07/pairs-on-same-object', lambda: cons.positive_negative_pairs(3, random_state=1))
+  T3 = call('C07/knn', lambda: cons.generate_knntriplets(X.copy(), kg, ki))
+  if not np.array_equal(T, T3):
+    raise Violation('C07/knn/depends-on-history', 'second call on the same helper object differs')
   reduced = any(kg > m - 1 for m in cnt.values()) or any(ki > tot_known - m for m in cnt.values())
   stats.case(case, unknown or reduced,
              ['knn', 'knn:' + tag, 'knn:grid' if case['grid'] else 'knn:continuous',
